@@ -7,6 +7,7 @@ import (
 	"encoding/json"
 	"fmt"
 	"net"
+	"reflect"
 	"strings"
 	"sync"
 	"time"
@@ -93,6 +94,8 @@ func (c12) Plan(tier string, seed uint64) []core.Case {
 	}
 	// a rejected (well-formed JSON, invalid envelope) value must leave nothing behind for the envelope that follows it
 	add("afterreject", map[string]interface{}{}, core.Derive(seed, 4).Uint64())
+	// a send whose context ends when only part of the envelope has been written, then more sends
+	add("partialsend", map[string]interface{}{}, core.Derive(seed, 6).Uint64())
 	// long streams over real sockets (listener + dialer), both directions
 	add("loopstream", map[string]interface{}{}, core.Derive(seed, 5).Uint64())
 	// the sender closes right after its last envelope and everything, the TLS close alert included, reaches the
@@ -704,6 +707,8 @@ func (p c12) Run(c core.Case) core.Result {
 		p.tlsClose(&r, c)
 	case "afterreject":
 		p.afterReject(&r, c)
+	case "partialsend":
+		p.partialSend(&r, c)
 	case "loopstream":
 		p.loopStream(&r, c)
 	case "random", "tls":
@@ -1032,4 +1037,93 @@ func (p c12) loopStream(r *core.Result, c core.Case) {
 	_ = b.Close()
 	<-done
 	r.Fingerprints = append(r.Fingerprints, "loopstream|tcp")
+}
+
+// partialSend: envelopes are sent; optionally one Send gets a context that is already done (nothing written); then the
+// peer stops reading and a Send's context ends after the connection has taken only the first bytes of its envelope;
+// the peer reads again and the application keeps sending. The receiver must be handed exactly the envelopes whose Send
+// returned nil, in order, each intact - after a partial envelope no later Send may report success.
+func (p c12) partialSend(r *core.Result, c core.Case) {
+	for _, capacity := range []int{1, 17, 64, 300} {
+		for _, withDone := range []bool{false, true} {
+			tp := rig.NewTransportPair(faultconn.Options{CapAtoB: capacity}, nil, nil)
+			type rec struct {
+				id string
+				ok bool
+			}
+			var acked []string
+			send := func(ctx context.Context, id string, size int) error {
+				m := &lime.Message{}
+				m.ID = id
+				m.SetContent(lime.TextDocument(strings.Repeat("z", size)))
+				err := tp.A.Send(ctx, m)
+				if err == nil {
+					acked = append(acked, id)
+				}
+				return err
+			}
+			var rmu sync.Mutex
+			var got []string
+			var rerr error
+			rdone := make(chan struct{})
+			go func() {
+				defer close(rdone)
+				for {
+					ctx, cancel := context.WithTimeout(context.Background(), 20*time.Second)
+					env, err := tp.B.Receive(ctx)
+					cancel()
+					rmu.Lock()
+					if err != nil {
+						rerr = err
+						rmu.Unlock()
+						return
+					}
+					got = append(got, getID(env))
+					rmu.Unlock()
+				}
+			}()
+			long, lc := context.WithTimeout(context.Background(), 20*time.Second)
+			_ = send(long, "m1", 10)
+			if withDone {
+				dead, dc := context.WithCancel(context.Background())
+				dc()
+				_ = send(dead, "never-written", 10)
+			}
+			_ = send(long, "m2", 10)
+			// wait until the receiver has taken everything, then stop it from reading
+			for i := 0; i < 5000 && tp.CB.Buffered() > 0; i++ {
+				time.Sleep(200 * time.Microsecond)
+			}
+			time.Sleep(2 * time.Millisecond)
+			tp.CB.Hold()
+			short, sc := context.WithTimeout(context.Background(), 40*time.Millisecond)
+			perr := send(short, "partial", 2000)
+			sc()
+			tp.CB.Release()
+			e4 := send(long, "m4", 10)
+			e5 := send(long, "m5", 10)
+			lc()
+			_ = tp.CA.Close()
+			select {
+			case <-rdone:
+			case <-time.After(30 * time.Second):
+			}
+			rmu.Lock()
+			r.Evals++
+			r.Count("runs", 1)
+			r.Count("partialsend_runs", 1)
+			r.Count("envelopes_acknowledged", len(acked))
+			r.Count("envelopes_received", len(got))
+			tag := fmt.Sprintf("connection capacity %d, done-context send first: %v; the partial send returned %v, the two sends after it %v / %v", capacity, withDone, perr, e4, e5)
+			if perr != nil {
+				r.Count("partial_sends_failed", 1)
+			}
+			if !reflect.DeepEqual(acked, got) {
+				r.Violate("C12/partialsend/acknowledged-differs-from-received", fmt.Sprintf("%s: Send returned nil for %v, the receiver was handed %v and then %v", tag, acked, got, rerr))
+			}
+			rmu.Unlock()
+			tp.Close()
+			r.Fingerprints = append(r.Fingerprints, fmt.Sprintf("partialsend|%d|%v", capacity, withDone))
+		}
+	}
 }
